@@ -231,6 +231,28 @@ func genTable(r *rng.R) []KLine {
 		}
 		tbl = append(tbl, k)
 	}
+	// deep paths: every path stays below PATH_MAX, but the mountinfo LINE of an overlay mount
+	// (mountpoint + three directories, escapes tripling blanks) is longer than any 4 KiB buffer
+	if r.Chance(1, 10) {
+		long := func() string {
+			var b strings.Builder
+			for b.Len() < 1200+r.Intn(600) {
+				b.WriteString("/" + r.Pick([]string{"deeply nested", "layer.d", "a\\b", "x"}) + genName(r))
+			}
+			return b.String()
+		}
+		for i := range tbl {
+			if tbl[i].Fstype == "overlay" {
+				tbl[i].MP = long()
+				for j := range tbl[i].Sopts {
+					if tbl[i].Sopts[j].HasV && strings.HasSuffix(tbl[i].Sopts[j].K, "dir") {
+						tbl[i].Sopts[j].V = long()
+					}
+				}
+				break
+			}
+		}
+	}
 	return tbl
 }
 
